@@ -24,6 +24,16 @@ last step is 1e-5 ... 1e-9 of the rate) followed by a window in which every
 choice of <= k deviations is explored, and histories with dozens of resets.
 Besides the public observables the statistic of every tracked rate is read
 from the detector's private table when that is possible (sharpening).
+
+Round 4, underflow (``uflow`` / ``edge-eta`` families): epochs so long -- or decay
+factors so small -- that eta^N is a subnormal double or 0.0 (N beyond 1023 / 1075
+at eta 0.5, 6724 / 7073 at the default 0.9, 308 / 324 at 0.1), where an
+algebraically equal evaluation of the weights eta^(N-i) through eta^N or eta^-i
+yields 0, inf or NaN; ladders of epoch lengths around those thresholds for every
+rate and six decay factors, and the ends 0 and 1 of the documented range of the
+decay factor.  Besides the decisions, the bounds the detector caches are compared
+with the stated percentiles of the stated draws whenever the private cache is
+readable (``LFR-bounds-value``, all families).
 """
 import copy
 import itertools
@@ -35,7 +45,8 @@ from mc import rng
 from mc.explorer import System, Violation, dev_split
 from mc.numeric import Decider, close, diff_keys, lockstep
 from mc.observe import stream_obs
-from models.lfr import RATES, TAIL, LFRModel, exact_statistic_distribution, quantile_band, rate_of
+from models.lfr import (RATES, TAIL, LFRModel, exact_statistic_distribution, quantile_band, rate_of,
+                        underflow_thresholds)
 
 PROPERTY = "C06"
 # wall-clock safety net only; sized for a machine shared with other builders
@@ -62,6 +73,26 @@ def _impl_bounds(det, p, N, round_val):
                 return [float(b[x]) for x in ("lb_warn", "ub_warn", "lb_detect", "ub_detect")]
         except (TypeError, ValueError, KeyError):
             return None
+    return None
+
+
+def _impl_bounds_at(det, key_int, N, round_val):
+    """The detector's cache entry for the rounded rate key_int / 10^round_val and denominator N, or None
+    when the private cache is not readable in the expected shape (sharpening only, nothing is demanded then)."""
+    cache = getattr(det, "_bounds", None)
+    if not isinstance(cache, dict):
+        return None
+    target = key_int / 10.0 ** round_val
+    tol = 1e-6 * 10.0 ** (-round_val)  # keys are multiples of 10^-round_val: no neighbour is that close
+    try:
+        for k, inner in cache.items():
+            if abs(float(k) - target) <= tol:
+                if not isinstance(inner, dict) or N not in inner:
+                    return None
+                b = inner[N]
+                return [float(b[x]) for x in ("lb_warn", "ub_warn", "lb_detect", "ub_detect")]
+    except (TypeError, ValueError, KeyError):
+        return None
     return None
 
 
@@ -186,6 +217,7 @@ class LFRSystem(System):
                     observed=a[max(0, i - 2): i + 3],
                 )
         self.statistic_check(det, model, ctx)
+        self.bounds_read(cfg, det, model, ctx)
         d = model.diag
         st = obs["state"]
         decisive = d["near"] == 0
@@ -229,6 +261,8 @@ class LFRSystem(System):
             ctx.count("recs_with_warning_before_drift")
         if long_mode:
             self.long_counters(cfg, model, st, prev_state, ctx)
+        if cfg.get("family") == "uflow":
+            self.uflow_counters(cfg, model, ctx)
 
         sh = state.get("shadow")
         if sh is not None:
@@ -322,6 +356,51 @@ class LFRSystem(System):
                     observed=v,
                 )
         ctx.count("statistic_reads")
+
+    def bounds_read(self, cfg, det, model, ctx):
+        """Sharpening, all families (round 4): the bounds the specification simulated at this step -- the
+        stated percentiles of the stated draws for the current rate estimate and denominator -- against the
+        entry the detector put into its private cache for the same (rounded rate, denominator), when that
+        cache is readable.  Both sides evaluate the same weighted sums of the same draws: the detector
+        sequentially (relative error <= N * 1.1e-16 of a sum of non-negative terms, 1e-12 at N = 10^4), the
+        specification with fsum / numpy.dot; numpy.percentile is the same primitive.  1e-9 relative / 1e-12
+        absolute therefore separates a correct evaluation from a numerically careless one (weights that lose
+        their leading digits, underflow to 0 or turn into NaN) by three orders of magnitude.  This decides
+        the bounds themselves; without it a detector whose bounds are NaN, or off by a per cent, is noticed
+        only when a decision happens to differ."""
+        for k_int, N, p, b in model.diag.get("new_bounds", ()):
+            ib = _impl_bounds_at(det, k_int, N, model.round_val)
+            if ib is None:
+                ctx.count("bounds_unreadable")
+                continue
+            ctx.count("bounds_reads")
+            if not close(list(b), ib):
+                raise Violation(
+                    "LFR-bounds-value",
+                    "bounds cached by the detector for rate %s, N=%d (eta=%s, num_mc=%d) after %d samples differ "
+                    "from the stated percentiles of (1-eta)*sum eta^(N-i)*Bernoulli(rate) over the stated draws"
+                    % (p, N, model.eta, model.num_mc, model.total),
+                    expected=list(b),
+                    observed=ib,
+                )
+
+    def uflow_counters(self, cfg, model, ctx):
+        """Anti-vacuity for the underflow family: in which range of doubles eta^N lay when a rate was tested.
+        Functions of the event sequence and the parameters only (the first window sample of every history is
+        tested whatever the draws were)."""
+        if not model.diag["eligible"]:
+            return
+        ns, n0 = cfg["uflow"]
+        for r in model.tracked:
+            N = rate_of(model.C, r)[1]
+            if N >= n0:
+                ctx.mark("uflow_tested_weights_zero")
+                if N >= n0 + n0 // 5:
+                    ctx.count("uflow_tested_weights_zero_by_far")
+            elif N >= ns:
+                ctx.mark("uflow_tested_weights_subnormal")
+            else:
+                ctx.count("uflow_tested_weights_normal")
 
     def long_counters(self, cfg, model, st, prev_state, ctx):
         """Anti-vacuity for the long-epoch families: tested samples deep inside an epoch, at very pure rates."""
@@ -458,10 +537,22 @@ TIE_CFGS = [_params(0.5, 0.4, 0.3, 0, 1, 4), _params(0.5, 0.5, 0.25, 2, 1, 1)]
 SUBSET_BASES = [(0.6, 0.4, 0.1, 0, 1, 1), (0.7, 0.2, 0.05, 1, 1, 4)]
 
 
+# the ends of the documented range [0, 1] of time_decay_factor and values next to them (round 4): with 0 the
+# statistic is the last hit indicator and the simulated statistic the last draw (0^0 = 1: the weights are
+# 0, ..., 0, 1); with 1 the statistic never moves and every simulated value is 0.  Expressions such as eta^N / eta^i,
+# exp((N - i) * log(eta)) or a division by (1 - eta) are NaN / inf exactly there.
+EDGE_ETA_CFGS = [
+    _params(0.0, 0.2, 0.05, 1, 1, 4), _params(1.0, 0.4, 0.1, 0, 1, 4),
+    _params(0.001, 0.2, 0.05, 0, 1, 1), _params(1 - 2.0 ** -53, 0.2, 0.05, 2, 2, 4),
+]
+
+
 def _dfs_families(tier):
     if tier == "quick":
-        return [("grid", _grid("cover"), 6, 1), ("deep", [DEEP_A], 7, 2), ("ties", TIE_CFGS, 6, 1)]
+        return [("grid", _grid("cover"), 6, 1), ("deep", [DEEP_A], 7, 2), ("ties", TIE_CFGS, 6, 1),
+                ("edge-eta", EDGE_ETA_CFGS, 5, 1)]
     return [
+        ("edge-eta", EDGE_ETA_CFGS, 6, 1),
         ("ties", TIE_CFGS, 7, 1),
         ("grid", _grid("full"), 6, 1),
         ("grid7", _grid("cover"), 7, 1),
@@ -600,6 +691,109 @@ EPOCH_PLAN["thorough"] = EPOCH_PLAN["quick"] + [
 ]
 
 
+# ---------------------------------------------------------------------------------------------
+# Underflow family (round 4, ``uflow``).  The weights of the simulated statistic are eta^(N-1) ... eta^1, eta^0.
+# Once the denominator N of a tracked rate exceeds Ns = 1022/log2(1/eta) the oldest weights are subnormal doubles,
+# beyond N0 = 1075/log2(1/eta) they are 0.0 (eta 0.5: 1023 / 1075, 0.6: 1387 / 1459, 0.75: 2463 / 2591, the default
+# 0.9: 6724 / 7073; a small factor reaches the region early: 0.25: 512 / 538, 0.1: 308 / 324).  That is harmless as
+# long as each weight is formed on its own, and fatal for an algebraically equal evaluation that goes through eta^N
+# or eta^-i (0/x, 0/0, inf*0): the bounds lose digits in the subnormal range and are 0 / NaN beyond it, and a NaN
+# bound silences the detector for the rest of the epoch.  The earlier long families stayed out of the region
+# (eta >= 0.7 beyond 500 samples).  Layout: for every decay factor a ladder of four epoch lengths laid out around
+# (Ns, N0) -- 'normal' (largest tracked denominator Ns - 40: control), 'sub' (midway between Ns and N0), 'edge'
+# (N0 - 2: the window crosses N0) and 'far' (every tracked denominator >= 1.25 * N0) -- for five streams: each of
+# the four rates tracked alone on a stream that feeds it at 9/10 (the denominator grows with every sample), and the
+# 13/16 'mix' stream with all four rates tracked (denominators 9/16 and 7/16 of the epoch: on the 'edge' rung two
+# rates are beyond N0 and two are not).  A history = the epoch as run-length blocks (untested: burn_in = its
+# length; every sample still compared), then a window of 3 samples continuing the stream and 4 samples of a total
+# collapse (every sample wrong for the tracked rates: the statistic is multiplied by eta each time, so a decisive
+# drift is certain within the window for any reasonable draw), with every choice of <= k deviations over all four
+# cells.  Levels, subsample, round_val and num_mc rotate over the ladder.
+UFLOW_STREAMS = {
+    # name: (pattern, cells of the collapse, rates tracked)
+    "tpr9": ([3] * 9 + [2], [2], ("tpr",)),  # y_true always 1: TPR 9/10, N = samples + 2
+    "tnr9": ([0] * 9 + [1], [1], ("tnr",)),
+    "ppv9": ([3] * 9 + [1], [1], ("ppv",)),  # y_pred always 1: PPV 9/10
+    "npv9": ([0] * 9 + [2], [2], ("npv",)),
+    "mix": ([3, 3, 0, 3, 0, 3, 2, 0, 3, 3, 0, 1, 3, 0, 3, 0], [2, 1], ALL),
+    # the other direction (thorough tier): rates of 1/10 and a sudden run of hits, the statistic leaves through the upper bounds
+    "tpr1": ([2] * 9 + [3], [3], ("tpr",)),
+    "tnr1": ([1] * 9 + [0], [0], ("tnr",)),
+}
+UFLOW_QUICK_STREAMS = ("tpr9", "tnr9", "ppv9", "npv9", "mix")
+UFLOW_RUNGS = ("normal", "sub", "edge", "far")
+UFLOW_CONT, UFLOW_COLLAPSE = 3, 4
+UFLOW_ROT = [  # (warning_level, detect_level, subsample, round_val, num_mc)
+    (0.2, 0.05, 1, 4, 30), (0.4, 0.1, 1, 1, 30), (0.05, 0.05, 2, 4, 30), (0.2, 0.05, 1, 4, 120),
+    (0.05, 0.001, 1, 4, 30), (0.4, 0.1, 2, 4, 30), (0.2, 0.05, 1, 1, 30),
+]
+UFLOW_PLAN = {
+    # (eta, streams, rungs, k)
+    "quick": [
+        (0.1, UFLOW_QUICK_STREAMS, UFLOW_RUNGS, 1),
+        (0.25, UFLOW_QUICK_STREAMS, UFLOW_RUNGS, 1),
+        (0.5, UFLOW_QUICK_STREAMS, UFLOW_RUNGS, 1),
+        (0.6, UFLOW_QUICK_STREAMS, UFLOW_RUNGS, 1),
+        (0.75, UFLOW_QUICK_STREAMS, UFLOW_RUNGS, 1),
+        (0.9, ("tpr9",), ("sub", "edge", "far"), 1),  # the library's default factor: epochs of 6 900 .. 8 800 samples
+    ],
+}
+UFLOW_PLAN["thorough"] = [
+    (eta, tuple(UFLOW_STREAMS), UFLOW_RUNGS, 2 if eta <= 0.5 else 1)
+    for eta in (0.001, 0.1, 0.25, 0.3, 0.5, 0.6, 0.75, 0.8, 0.9)
+] + [(0.95, ("tpr9", "npv9"), ("sub", "edge"), 1)]
+
+
+def _uflow_len(stream, target, which):
+    """Samples of the stream after which the largest ('max') / smallest ('min') denominator among the tracked
+    rates equals target - 1, so that the next sample that feeds that rate -- a window sample -- brings it to target."""
+    pattern, _, tracked = UFLOW_STREAMS[stream]
+    C = [[1, 1], [1, 1]]
+    pick = max if which == "max" else min
+    m = 0
+    while pick(rate_of(C, r)[1] for r in tracked) < target - 1:
+        c = pattern[m % len(pattern)]
+        C[c & 1][c >> 1] += 1
+        m += 1
+    return m
+
+
+def _uflow_specs(tier):
+    out = []
+    for ei, (eta, streams, rungs, k) in enumerate(UFLOW_PLAN[tier]):
+        ns, n0 = underflow_thresholds(eta)
+        for si, stream in enumerate(streams):
+            for rung in rungs:
+                ri = UFLOW_RUNGS.index(rung)
+                target, which = {"normal": (ns - 40, "max"), "sub": ((ns + n0) // 2, "max"),
+                                 "edge": (n0 - 2, "max"), "far": (n0 + n0 // 4, "min")}[rung]
+                rot = UFLOW_ROT[(2 * ri + 3 * si + ei) % len(UFLOW_ROT)]
+                out.append({"eta": eta, "stream": stream, "rung": rung, "k": k, "ns": ns, "n0": n0,
+                            "M": _uflow_len(stream, target, which), "rot": rot})
+    return out
+
+
+def _uflow_task(spec):
+    pattern, collapse, tracked = UFLOW_STREAMS[spec["stream"]]
+    L, M = len(pattern), spec["M"]
+    blocks = [[list(pattern), M // L]] if M >= L else []
+    if M % L:
+        blocks.append([list(pattern[: M % L]), 1])
+    wl, dl, sub, rv, num_mc = spec["rot"]
+    p = _params(spec["eta"], wl, dl, M, sub, rv, tracked, num_mc)
+    window = [pattern[(M + i) % L] for i in range(UFLOW_CONT)] + \
+             [collapse[i % len(collapse)] for i in range(UFLOW_COLLAPSE)]
+    cid = _cid(p, "uflow-%s-%s-n%d-" % (spec["stream"], spec["rung"], num_mc))
+    return {
+        "system": "LFR", "mode": "dev",
+        "cfg": {"id": cid, "params": p, "long": True, "family": "uflow", "uflow": [spec["ns"], spec["n0"]]},
+        "default": blocks + window,
+        "menu": [[] for _ in blocks] + [[0, 1, 2, 3] for _ in window], "menu_per_pos": True,
+        "k": spec["k"], "validate_every": 211,
+        "label": "LFR|uflow|%s|k%d" % (cid, spec["k"]),
+    }
+
+
 def _long_task(spec):
     seed_blocks, pattern, misses = LONG_STREAMS[spec["stream"]]
     L = len(pattern)
@@ -700,6 +894,21 @@ def tasks(tier, seed):
                 kk = t["k"] - (1 if "prefix" in t else 0)
                 t["cost"] = (n_pre / 100.0 + (_dev_size(spec["W"] - used, kk) + used) * per_step) / 60.0
                 out.append(t)
+    for spec in _uflow_specs(tier):
+        base = _uflow_task(spec)
+        W = UFLOW_CONT + UFLOW_COLLAPSE
+        nb = len(base["default"]) - W
+        # blocks ~0.2 ms a sample; a window transition = snapshot + simulations at N ~ M (both linear in M)
+        per_step = 1.0 + spec["M"] / 250.0 * (spec["rot"][4] / 30.0) * len(base["cfg"]["params"]["rates_tracked"]) / 2.0
+        if spec["k"] <= 1:
+            base["cost"] = (spec["M"] / 100.0 + _dev_size(W, spec["k"]) * per_step) / 60.0
+            out.append(base)
+        else:
+            for t in dev_split(base):
+                used = len(t.get("prefix", base["default"])) - nb
+                kk = t["k"] - (1 if "prefix" in t else 0)
+                t["cost"] = (spec["M"] / 100.0 + (_dev_size(W - used, kk) + used) * per_step) / 60.0
+                out.append(t)
     for p, reps, W, k in EPOCH_PLAN[tier]:
         cid = _cid(p, "epochs%d-" % reps)
         window = [EPOCH_PATTERN[i % len(EPOCH_PATTERN)] for i in range(W)]
@@ -738,6 +947,9 @@ REQUIRED = [
     "long_tested_steps", "long_tested_since_300", "long_tested_since_1000", "long_tested_rate_step_below_1e-5",
     "xlong_tested_since_5000", "xlong_tested_rate_step_below_1e-7",
     "epochs_tested_steps",
+    # underflow family: the first window sample of every history is tested whatever the draws were
+    "uflow_tested_steps", "uflow_tested_weights_normal", "uflow_tested_weights_subnormal",
+    "uflow_tested_weights_zero", "uflow_tested_weights_zero_by_far",
 ]
 
 
@@ -778,6 +990,24 @@ def describe(tier):
                 "histories": ["%s: W=%d k<=%d" % (_long_task(sp)[0]["cfg"]["id"], sp["W"], sp["k"])
                               for sp in LONG_PLAN[tier]],
             },
+            "underflow": {
+                "shape": "family 'uflow': one epoch as run-length blocks (untested: burn_in = its length; every sample "
+                "compared), then a window of %d samples continuing the stream + %d samples of a total collapse, with "
+                "every choice of <= k deviations over all four cells; epoch lengths per decay factor laid out around "
+                "(Ns, N0) = the denominators at which eta^N becomes a subnormal double / 0.0: 'normal' (largest tracked "
+                "denominator Ns - 40), 'sub' ((Ns + N0) / 2), 'edge' (N0 - 2: the window crosses N0), 'far' (every "
+                "tracked denominator >= 1.25 N0); levels / subsample / round_val / num_mc rotate over %s"
+                % (UFLOW_CONT, UFLOW_COLLAPSE, UFLOW_ROT),
+                "streams": {k: {"pattern": [CELLS[c] for c in v[0]], "collapse": [CELLS[c] for c in v[1]],
+                                "rates_tracked": list(v[2])} for k, v in UFLOW_STREAMS.items()},
+                "thresholds": {str(eta): list(underflow_thresholds(eta))
+                               for eta in sorted({e for e, _, _, _ in UFLOW_PLAN[tier]})},
+                "histories": ["%s: epoch %d samples, k<=%d" % (_uflow_task(sp)["cfg"]["id"], sp["M"], sp["k"])
+                              for sp in _uflow_specs(tier)],
+            },
+            "edge_decay_factors": "dfs family 'edge-eta': time_decay_factor 0.0, 1.0, 0.001 and 1 - 2^-53 (the ends "
+            "of the documented range [0, 1] and their neighbours), all four rates, every sequence of depth %d"
+            % (5 if tier == "quick" else 6),
             "many_epochs": {
                 "shape": "the 12-cell pattern %s repeated as one block, then a window of W single samples with "
                 "<= k deviations; small burn_in, so the detector is reset again and again (up to ~35 resets, "
@@ -817,6 +1047,14 @@ def describe(tier):
             "specified exponentially weighted average after every sample (rel 1e-9 / abs 1e-12; counter "
             "statistic_reads, otherwise statistic_unreadable and nothing is demanded); decisions are compared "
             "through the public attributes only",
+            "sharpening, all families (round 4): when the detector's private bounds cache (_bounds, named in the "
+            "property's anchors) is readable, the entry it stores for a (rounded rate, denominator) the specification "
+            "simulated at the same step must equal the stated percentiles of the stated draws (rel 1e-9 / abs 1e-12; "
+            "LFR-bounds-value; counter bounds_reads, otherwise bounds_unreadable and nothing is demanded).  NaN / "
+            "imprecise bounds are thereby decided at the step they are made, not only when a decision differs",
+            "underflow family: weights eta^(N-i) below the smallest subnormal are 0.0 in the specification as in any "
+            "correct evaluation (their exact value is < 5e-324 of a statistic of order 1); decay factors 0 and 1 are "
+            "taken literally (0^0 = 1)",
             "parallelize=False only; statistical adequacy of num_mc draws is not decided (the band check only "
             "pins orientation and level of the percentiles for N <= 12)",
         ],
